@@ -57,6 +57,15 @@ class ClassWorld:
                     for t in tgts:
                         if isinstance(t, ast.Name) and t.id not in self._pre:
                             self.genv[t.id] = v
+                        elif isinstance(t, (ast.Tuple, ast.List)) and all(isinstance(e, ast.Name) for e in t.elts):
+                            try:
+                                vs = self.ev.iterate(v)
+                            except (Undecided, Exception):
+                                continue
+                            if len(vs) == len(t.elts):
+                                for e, x in zip(t.elts, vs):
+                                    if e.id not in self._pre:
+                                        self.genv[e.id] = x
         for exc in ("TypeError", "ValueError", "IndexError", "KeyError", "RuntimeError", "NotImplementedError"):
             self.genv[exc] = (lambda exc: lambda *a: Tag(exc))(exc)
 
@@ -184,7 +193,22 @@ class ClassWorld:
             return self.new(name, *args, **kwargs)
 
         make.class_name = name  # type: ignore[attr-defined]
+        make.class_attr = lambda attr: self.class_attribute(name, attr)  # type: ignore[attr-defined]
         return make
+
+    def class_attribute(self, cls: str, attr: str) -> Any:
+        """`Class.attr`: a method as a plain function (static methods and explicit-self calls), or a class-level constant"""
+        owner, fn = self.find_method(cls, attr)
+        if fn is not None:
+            decos = {dotted(d) for d in fn.decorator_list}
+            if "classmethod" in decos:
+                return lambda *a, **k: FunctionValue(fn, self.ev, self.genv, self_obj=None, owner=owner)(self.genv[cls], *a, **k)
+            return FunctionValue(fn, self.ev, self.genv, self_obj=None, owner=owner)
+        for c in self.mro(cls):
+            ns = self._class_namespace(c)
+            if attr in ns and not isinstance(ns[attr], Undecided):
+                return ns[attr]
+        raise Undecided(f"{cls} has no attribute {attr}")
 
     def new(self, cls: str, *args: Any, **kwargs: Any) -> Obj:
         o = Obj(self.mro(cls), __class__=cls, name=cls)
